@@ -9,6 +9,9 @@
 \*   DblRT            k, b (the double k / 2^b, b <= 6), p = precision,
 \*                    s = toString(d, p), r, q = toDouble(s) * 10^6 (exact),
 \*                    same = (toDouble(s) == d)
+\*   DecRT            d = a decimal string with <= 15 significant digits, s = toString(toDouble(d), 15),
+\*                    same = (toDouble(s) == toDouble(d))
+\*   Dbl17RT          s = toString(x, 17) for a random finite double x, same = (toDouble(s) == x)
 \* Ghost state: the verdict of the last recogniser call, so that the
 \* converter and the recogniser are also required to agree with each other on
 \* the strings the statement leaves open ("either").
@@ -72,7 +75,21 @@ TDblRT ==
        /\ Ev.r = "ok" /\ Ev.q = target /\ Ev.same
   /\ UNCHANGED vars
 
-TraceNext == TReset \/ TIsNum \/ TIsInt \/ TToDouble \/ TToInt \/ TIntRT \/ TDblRT
+\* a decimal with at most 15 significant digits survives text -> double -> text (precision 15) -> double
+\* exactly: the re-formatted string denotes the same decimal, and converts to the same double
+TDecRT ==
+  /\ IsEvent("DecRT")
+  /\ StrictNumber(Ev.d) /\ SigDigits(Ev.d) <= 15
+  /\ Ev.r = "ok" /\ LaxNumber(Ev.s) /\ SameDecimal(Ev.s, Ev.d) /\ Ev.same
+  /\ UNCHANGED vars
+
+\* any finite double formatted with 17 significant digits converts back to itself
+TDbl17RT ==
+  /\ IsEvent("Dbl17RT")
+  /\ Ev.r = "ok" /\ LaxNumber(Ev.s) /\ SigDigits(Ev.s) <= 17 /\ Ev.same
+  /\ UNCHANGED vars
+
+TraceNext == TDecRT \/ TDbl17RT \/ TReset \/ TIsNum \/ TIsInt \/ TToDouble \/ TToInt \/ TIntRT \/ TDblRT
 TraceInit == Init /\ l = 1
 TraceSpec == TraceInit /\ [][TraceNext]_<<vars, l>>
 =============================================================================
